@@ -233,14 +233,20 @@ fn dce_block_with_live(
                 let mut new_cases: Vec<(crate::go::goty::GoType, ast::Block)> =
                     Vec::with_capacity(cases.len());
                 let mut cases_live_in: HashSet<String> = HashSet::new();
+                // The binding is a new variable of each clause; a variable of the same name
+                // that is live after the switch is another variable and not a use of it.
+                let mut live_in_clauses = live.clone();
+                if let Some(bname) = &bind {
+                    live_in_clauses.remove(bname);
+                }
                 for (t, blk) in cases {
-                    let (b2, live_in) = dce_block_with_live(blk, &live);
+                    let (b2, live_in) = dce_block_with_live(blk, &live_in_clauses);
                     cases_live_in.extend(live_in);
                     needs_decl.extend(assigned_vars_in_block(&b2));
                     new_cases.push((t, b2));
                 }
                 let (default_b, default_live_in) = if let Some(b) = default {
-                    let (b2, live_in) = dce_block_with_live(b, &live);
+                    let (b2, live_in) = dce_block_with_live(b, &live_in_clauses);
                     needs_decl.extend(assigned_vars_in_block(&b2));
                     (Some(b2), live_in)
                 } else {
